@@ -274,12 +274,15 @@ def coord_relation(a, b):
             return 'same-bundle'
         if (ax % 128, ay % 128) == (bx % 128, by % 128):
             return 'same-slot-other-bundle'
+        if (ax % 1000, ay % 1000) == (bx % 1000, by % 1000):
+            return 'same-digits-other-digit-group'
         return 'same-level'
     return 'other'
 
 
 MUTATING = ('store_tile', 'store_tiles', 'remove_tile', 'remove_tiles', 'fetch_through')
 READ_PATHS = ('load_tiles', 'load_tile', 'is_cached')
+BYTE_SYMPTOMS = ('stale-bytes', 'foreign-bytes', 'corrupt-bytes')
 
 
 class Executor(object):
@@ -635,9 +638,14 @@ class Executor(object):
         mutated = self._mutated_keys(op)
         for key in self.keys:
             r = res[key]
-            bad = [p for p in READ_PATHS if r.get(p)]
-            if not bad:
+            if not any(r.values()):
                 continue
+            r = dict(r)
+            loads = [r[p] for p in ('load_tiles', 'load_tile') if p in r]
+            if r.get('is_cached') is None and all(s_ in BYTE_SYMPTOMS for s_ in loads):
+                # is_cached only sees presence: it cannot confirm or contradict wrong bytes
+                r.pop('is_cached', None)
+            bad = [p for p in READ_PATHS if r.get(p)]
             detail = ', '.join('%s: %s' % (p, r[p] or 'ok') for p in READ_PATHS if p in r)
             where = 'address %r dimensions %r' % (key[0], dict(key[1]) or None)
             if len(bad) < len(r):
@@ -664,7 +672,7 @@ class Executor(object):
             if vc and any(vc & set(self._colours_ever(m)) for m in mutated):
                 return 'same-colour-link'
         order = ['same-xy-other-level', 'swapped-xy', 'swapped-xy-other-level', 'same-bundle',
-                 'same-slot-other-bundle', 'same-level', 'other']
+                 'same-slot-other-bundle', 'same-digits-other-digit-group', 'same-level', 'other']
         rels = [coord_relation(victim[0], m[0]) for m in mutated]
         return min(rels, key=order.index) if rels else 'other'
 
